@@ -192,6 +192,7 @@ func (m *MapPollard) Modify(adds []Leaf, delHashes []Hash, proof Proof) error {
 	if err != nil {
 		return err
 	}
+	verifPoint("mappollard.Modify:between-remove-and-add")
 
 	err = m.add(adds)
 	if err != nil {
@@ -222,6 +223,7 @@ func (m *MapPollard) add(adds []Leaf) error {
 		}
 
 		m.NumLeaves++
+		verifPoint("mappollard.add:after-single-add")
 	}
 
 	return nil
@@ -913,11 +915,13 @@ func (m *MapPollard) Undo(numAdds uint64, proof Proof, hashes, origPrevRoots []H
 	if err != nil {
 		return fmt.Errorf("Undo errored while undoing added leaves. %v", err)
 	}
+	verifPoint("mappollard.Undo:between-undoAdd-and-undoDeletion")
 
 	err = m.undoDeletion(proof, hashes)
 	if err != nil {
 		return fmt.Errorf("Undo errored while undoing deleted leaves. %v", err)
 	}
+	verifPoint("mappollard.Undo:before-root-rewrite")
 
 	_, rootPos := m.getRoots()
 	for i := range rootPos {
@@ -1158,6 +1162,8 @@ func (m *MapPollard) ingest(delHashes []Hash, proof Proof) error {
 		}
 	}
 
+	verifPoint("mappollard.ingest:between-proof-and-intermediates")
+
 	// Calculate the intermediate positions and their hashes.
 	intermediate, _, err := calculateHashes(m.NumLeaves, delHashes, proof)
 	if err != nil {
@@ -1206,6 +1212,7 @@ func (m *MapPollard) Prune(hashes []Hash) error {
 		}
 
 		m.CachedLeaves.Delete(hash)
+		verifPoint("mappollard.Prune:after-uncache")
 
 		leaf, found := m.Nodes.Get(pos)
 		if !found {
@@ -1424,6 +1431,7 @@ func (m *MapPollard) Write(w io.Writer) (int, error) {
 	// Write the node elements.
 	var leafBuf [33]byte
 	err = m.Nodes.ForEach(func(k uint64, v Leaf) error {
+		verifPoint("mappollard.Write:in-node-loop")
 		binary.LittleEndian.PutUint64(buf[:], k)
 		bytes, err := w.Write(buf[:])
 		if err != nil {
@@ -1475,6 +1483,7 @@ func (m *MapPollard) Read(r io.Reader) (int, error) {
 	}
 	totalBytes += bytes
 	m.NumLeaves = binary.LittleEndian.Uint64(buf[:])
+	verifPoint("mappollard.Read:after-header")
 
 	// Read the count for the cache leaf elements in the map.
 	bytes, err = io.ReadFull(r, buf[:])
@@ -1530,6 +1539,7 @@ func (m *MapPollard) Read(r io.Reader) (int, error) {
 		leaf := Leaf{Hash: hash, Remember: leafBuf[32] == 1}
 
 		m.Nodes.Put(position, leaf)
+		verifPoint("mappollard.Read:in-node-loop")
 
 	}
 
